@@ -116,14 +116,34 @@ func propDRBG(t *rapid.T) {
 	})
 	rd := secec.VerifNewDrbgRFC6979(lib.Sc(x), lib.Sc(e))
 	g := ref.NewRFC6979(x, ref.B32(e))
+	// Each candidate is taken either by a direct Read into a caller buffer (which the caller then
+	// overwrites, as any caller may) or through the rejection sampler, which is how sign() consumes
+	// the generator when it has to retry; the sequence must be T1, T2, ... either way.
 	for i := 0; i < n; i++ {
+		want := g.Next()
+		if rapid.Bool().Draw(t, fmt.Sprintf("via-sampler-%d", i)) {
+			for c := ref.Int(want); c.Sign() == 0 || c.Cmp(ref.N) >= 0; c = ref.Int(want) {
+				want = g.Next() // (probability 2^-128) the sampler skips an out-of-range candidate
+			}
+			k, err := secec.VerifSampleRandomScalar(rd)
+			if err != nil || k == nil {
+				t.Fatalf("sampler over the RFC 6979 generator failed at candidate %d: %v", i+1, err)
+			}
+			if !bytes.Equal(k.Bytes(), want) {
+				t.Fatalf("RFC 6979 candidate T%d taken through the sampler = %x, want %x (x=%x e=%x)", i+1, k.Bytes(), want, x, e)
+			}
+			continue
+		}
 		var buf [32]byte
 		k, err := rd.Read(buf[:])
 		if err != nil || k != 32 {
 			t.Fatalf("drbg read %d: %d, %v", i, k, err)
 		}
-		if want := g.Next(); !bytes.Equal(buf[:], want) {
+		if !bytes.Equal(buf[:], want) {
 			t.Fatalf("RFC 6979 candidate T%d = %x, want %x (x=%x e=%x)", i+1, buf, want, x, e)
+		}
+		for j := range buf {
+			buf[j] = 0
 		}
 	}
 }
